@@ -663,6 +663,29 @@ func (c *evalCtx) evalObject(s *sg.Schema, o jsonx.Obj, path string, pos ctxPos)
 		}
 		c.fault("required", path+"/"+r)
 	}
+	// Absent (or null) keys that declare a default: the tool applies the default and then runs the field's
+	// validators on it. In the pure model a default is valid for its schema by construction (otherwise the case is
+	// outside the statements: DontCare); under a defect model the default is judged like a document value, because
+	// a defective validator may reject it (e.g. default 1 against "maximum 1.5" truncated to "< 1").
+	for _, p := range s.Props {
+		if !p.S.HasDefault {
+			continue
+		}
+		if v, present := o.Get(p.Name); present && v != nil {
+			continue
+		}
+		sub := &evalCtx{d: c.d, reCache: c.reCache}
+		sub.eval(p.S, p.S.Default, path+"/"+p.Name, ctxPos{})
+		if len(sub.dc) > 0 {
+			c.dontcare("default-in-dontcare-zone", path+"/"+p.Name)
+		} else if len(sub.faults) > 0 {
+			if *c.d == (Defects{}) {
+				c.dontcare("default-not-valid-for-its-schema", path+"/"+p.Name)
+			} else {
+				c.faults = append(c.faults, sub.faults...)
+			}
+		}
+	}
 	lower := map[string]bool{}
 	for _, p := range s.Props {
 		lower[strings.ToLower(p.Name)] = true
